@@ -77,6 +77,7 @@ class Ctx:
 
     def start_sym(self, timeout_ms=None):
         self.mode = "sym"
+        self.slow_feasibility = False
         if timeout_ms:
             self.timeout_ms = timeout_ms
         self.solver = z3.Solver()
@@ -95,9 +96,13 @@ class Ctx:
     def _feasible(self, c):
         # short budget: `unknown` counts as feasible (sound: an infeasible path only adds
         # vacuously true obligations)
-        self.solver.set("timeout", self.branch_timeout_ms)
+        # z3 refutes quickly (E-matching) but may search long for a model under quantified assumptions: once a
+        # feasibility test has come back `unknown` in this harness run, later ones get a much shorter budget
+        self.solver.set("timeout", self.branch_timeout_ms if not getattr(self, "slow_feasibility", False) else 300)
         r = self.solver.check(c)
         self.solver.set("timeout", self.timeout_ms)
+        if r == z3.unknown:
+            self.slow_feasibility = True
         return r != z3.unsat
 
     def assume(self, cond):
@@ -113,11 +118,13 @@ class Ctx:
         self.assume(cond)
         # short budget: `unknown` counts as feasible (as in branch(): an infeasible path only adds vacuous obligations;
         # vacuity of the whole harness is guarded separately by the cover check)
-        self.solver.set("timeout", self.branch_timeout_ms)
+        self.solver.set("timeout", self.branch_timeout_ms if not getattr(self, "slow_feasibility", False) else 300)
         try:
             r = self.solver.check()
         finally:
             self.solver.set("timeout", self.timeout_ms)
+        if r == z3.unknown:
+            self.slow_feasibility = True
         if r == z3.unsat:
             raise PathEnd("infeasible")
 
